@@ -9,6 +9,8 @@
 package c05
 
 import (
+	"context"
+	"database/sql"
 	"errors"
 	"fmt"
 	"path/filepath"
@@ -71,13 +73,24 @@ type runResult struct {
 }
 
 // execute runs op with an optional driver fault at call k (1-based) or hook fault at j.
+// causes: what the failing step's error wraps. A hook or a driver may fail with any error value (its
+// own timeout, a not-found from a lookup inside the hook, a finished transaction): the operation must
+// be undone and finished whatever the value is.
+var causes = []error{nil, nil, context.Canceled, context.DeadlineExceeded, sql.ErrTxDone, gorm.ErrRecordNotFound, gorm.ErrInvalidTransaction, sql.ErrNoRows}
+
 func execute(op txm.Op, failCall, failHook int) runResult {
+	return executeCause(op, failCall, failHook, nil)
+}
+
+func executeCause(op txm.Op, failCall, failHook int, cause error) runResult {
 	restore()
 	txm.ResetHooks()
 	txm.H.FailAt = failHook
+	txm.H.Cause = cause
+	defer func() { txm.H.Cause = nil }()
 	var count int64
 	if failCall > 0 {
-		H.Rec.SetHook(recdrv.FailNth(failCall, &recdrv.ErrInjected{At: fmt.Sprintf("driver call %d", failCall)}, &count))
+		H.Rec.SetHook(recdrv.FailNth(failCall, &recdrv.ErrInjected{At: fmt.Sprintf("driver call %d", failCall), Cause: cause}, &count))
 	} else {
 		H.Rec.SetHook(recdrv.FailNth(-1, nil, &count))
 	}
@@ -234,18 +247,35 @@ func run(c *core.Ctx) {
 				"fault_free_calls": evStrings(fcalls), "events": evStrings(r.events), "hooks": txm.LogString(r.hookLog)})
 		}
 	}
+	causeName := func(e error) string {
+		if e == nil {
+			return ""
+		}
+		return "[" + e.Error() + "]"
+	}
 	for k := 1; k <= K; k++ {
-		r := execute(op, k, 0)
-		what := fmt.Sprintf("driver-call-%d-of-%d(%s)", k, K, fcalls[k-1].Kind)
+		cause := core.Pick(c.R, causes)
+		r := executeCause(op, k, 0, cause)
+		what := fmt.Sprintf("driver-call-%d-of-%d(%s)%s", k, K, fcalls[k-1].Kind, causeName(cause))
 		check(what, r, false)
+		if cause != nil {
+			c.Inc("fault_wrapping_" + cause.Error())
+			if r.err != nil && !errors.Is(r.err, cause) {
+				c.Violation("cause-lost/"+kind, map[string]interface{}{"op": op.Desc, "fault": what, "problems": []string{"result.Error does not wrap the error the driver failed with: " + r.err.Error()}})
+			}
+		}
 		verb := strings.Fields(fcalls[k-1].Query + " -")[0]
 		c.Shape("drv", kind, K, k, fcalls[k-1].Kind, verb)
 		c.Inc("fault_at_" + string(fcalls[k-1].Kind))
 	}
 	for j := 1; j <= J; j++ {
-		r := execute(op, 0, j)
+		cause := core.Pick(c.R, causes)
+		r := executeCause(op, 0, j, cause)
 		hk := ff.hookLog[j-1]
-		check(fmt.Sprintf("hook-%d-of-%d(%s)", j, J, hk.Hook+":"+hk.Type), r, true)
+		check(fmt.Sprintf("hook-%d-of-%d(%s)%s", j, J, hk.Hook+":"+hk.Type, causeName(cause)), r, true)
+		if cause != nil {
+			c.Inc("fault_wrapping_" + cause.Error())
+		}
 		c.Shape("hook", kind, J, j, hk.Hook, hk.Type)
 		c.Inc("fault_at_hook_" + hk.Hook)
 	}
